@@ -95,12 +95,17 @@ PROPS = {
         "units": ["V10_parse", "V7_types", "V6_api"],
         "obligations": ["V10_parse.InitExpr.eval.*", "V10_parse.fn:InitExpr::eval", "V10_parse.DataSegmentKind.*", "V10_parse.fn:DataSegmentKind::from_wasmparser",
                         "V10_parse.Global.*", "V10_parse.fn:Global::from_wasmparser", "V10_parse.fn:Error as From::from",
+                        "V10_parse.parse_tag_section.*", "V10_parse.fn:parse_tag_section", "V10_parse.parse_function_names.*", "V10_parse.fn:parse_function_names",
+                        "V10_parse.apply_function_names.*", "V10_parse.fn:apply_function_names", "V10_parse.parse_producers.*", "V10_parse.fn:parse_producers",
+                        "V10_parse.build_local_functions.*", "V10_parse.fn:build_local_functions", "V10_parse.fn:Function::new", "V10_parse.fn:Import::is_function",
                         "V7_types.fn:ModuleTypes::new", "V6_api.fn:LocalFunction::new"],
-        "glue": ["Module::parse_internal and Component::parse_comp themselves (wasmparser payload loops, 480 + 300 lines) are NOT under contract: their own panic sites (indexing code_sections from an unvalidated name section, unwrap of an empty producers section, panic! on a tag-section error, todo!() on unknown payloads, u32 sums of local counts) are not decided by this check",
+        "glue": ["the payload loops of Module::parse_internal and Component::parse_comp (480 + 300 lines) are NOT under contract as a whole; five regions of parse_internal are (rule R16): the tag-section loop, the function-names loop, the application of the names, the producers section, the construction of the local functions. The other arms (type / import / table / memory / global / export / element / data / code entries) and `_ => todo!()` (unreachable for this wasmparser version: every Payload variant is listed) are not decided",
+                 "rule R18: loops over wasmparser section readers are written as `loop { match next() .. }`; the readers are TRUSTED to yield any item or error and to terminate",
+                 "the precondition functions.len() == code_sections.len() of the local-functions region is established by the IncorrectCodeCounts check a few lines above it (read, not proved)",
                  "ElementKind / ElementItems / DataSegment::from_wasmparser and ModuleImports / ModuleGlobals::new are not under contract",
                  "TRUSTED model of the operator reader: read() returns any operator or an error and consumes at least one byte when it succeeds"],
         "design_ref": "DESIGN.md §5 C03",
-        "level_text": "Partial: the callees of the parse path that are separate functions - the constant-expression reader (for ANY operator sequence the reader may yield, including read errors), the data-segment-kind and global converters, the type-table constructor, LocalFunction::new - are proved free of panics, overflow and non-termination. The two payload loops themselves are glue.",
+        "level_text": "Partial: five regions of parse_internal with panic sites of their own (all repaired: F20, F21) and the callees of the parse path that are separate functions - the constant-expression reader (for ANY operator sequence the reader may yield, including read errors), the data-segment-kind and global converters, the type-table constructor, LocalFunction::new - are proved free of panics, overflow and non-termination. The two payload loops themselves are glue.",
     },
     "C04": {
         "title": "Encoding is deterministic",
@@ -249,7 +254,7 @@ PROPS = {
     "C15": {
         "title": "Before/after/alternate injection is lowered exactly",
         "units": ["V4_inject", "V4b_iter_inject", "V11_emit"],
-        "obligations": V11_EMIT + ["V4b_iter_inject.ModuleIterator.*", "V4b_iter_inject.fn:ModuleIterator as *", "V4b_iter_inject.fn:Functions::get_mut"] + ["V4_inject.InstrumentationFlag.*", "V4_inject.fn:InstrumentationFlag::*", "V4_inject.fn:Instruction::add_instr", "V4_inject.LocalFunction.*", "V4_inject.fn:LocalFunction::add_instr",
+        "obligations": V11_EMIT + ["V4b_iter_inject.ModuleIterator.*", "V4b_iter_inject.fn:ModuleIterator as *", "V4b_iter_inject.fn:Functions::get_mut"] + ["V4_inject.InstrumentationFlag.*", "V4_inject.fn:InstrumentationFlag::*", "V4_inject.fn:Instruction::add_instr", "V4_inject.LocalFunction.*", "V4_inject.fn:LocalFunction::add_instr", "V4_inject.fn:LocalFunction::clear_instr_at", "V4_inject.fn:Body::clear_instr",
                         "V4_inject.fn:Body::clear_instr", "V4_inject.fn:FunctionModifier as *"],
         "glue": V11_TRUST + ["the rest of Module::encode_internal around the per-instruction loop (which functions are emitted, locals, how instr_len is computed: `instructions.len() - 1` is a precondition of the region) is not under contract",
                  "rule R16: the loop is cut out of encode_internal by a text anchor and wrapped in a declared header; the locals it uses become parameters of the same types"],
